@@ -764,7 +764,7 @@ def _work(args):
     rec = dict(ops=r.ops, obs=r.obs, failures=fails, listener_ops=list(r.listener_ops),
                phases=[(c['op'] + ('@listener' if c.get('from_listener') else ''), c['phase']) for c in r.calls])
     r.close()
-    return rec
+    return __import__("harness.common", fromlist=["plain"]).plain(rec)      # monitor details may quote objects of the code under test
 
 
 MONITORS = {}
